@@ -940,6 +940,110 @@ theorem gml_reload_named (ren : String → String)
     show (Attrs.get (as.map fun p => (ren p.1, p.2)) a).isSome = false
     rw [get_map_ren_none as ren a hno]; rfl
 
+/-! ## Round 3: subclasses whose constructors derive the adjacency matrix
+
+`ClimateNetwork`, `CoupledClimateNetwork`, `RecurrenceNetwork` and `ResNetwork` compute a
+0/1 matrix and hand it to `GeoNetwork.__init__` / `Network.__init__`, i.e. to the same
+adjacency setter and node-weight setter.  The result is the canonical network of the
+relation the documented rule describes — so `canonical_*`, `n_links_*`, `link_density_*`
+and `constructed_reprsA` (hence every history theorem) apply to these objects. -/
+
+private theorem thresholdMat_eq (sim : Nat → Nat → Rat) (thr : Rat) :
+    thresholdMat sim thr = ind fun i j => i != j && decide (thr < ratAbs (sim i j)) := by
+  funext i j
+  unfold thresholdMat ind
+  by_cases h : i = j
+  · simp [h]
+  · by_cases h2 : thr < ratAbs (sim i j) <;> simp [h, h2]
+
+/-- **`ClimateNetwork(grid, similarity, threshold)`** (and `set_threshold` on a live object):
+nodes `i ≠ j` are linked iff `|similarity[i, j]| > threshold` (strictly); weights are those of
+the `node_weight_type`; for a symmetric similarity matrix — or a directed network — this is
+a simple graph (symmetric adjacency with empty diagonal) -/
+theorem climate_path (d : Bool) (N : Nat) (hN : 2 ≤ N) (sim : Nat → Nat → Rat) (thr : Rat)
+    (cl : List Rat) (hcl : cl.length = N) (t : Nat) :
+    climateInit d N sim thr cl t
+      = .ok (ofGraph d N (fun i j => i != j && decide (thr < ratAbs (sim i j)))
+          (weightsOf N (geoWeights cl t)) none)
+    ∧ ((d = false → ∀ i j, sim i j = sim j i) →
+        Simple d N fun i j => i != j && decide (thr < ratAbs (sim i j))) := by
+  refine ⟨?_, fun hsym => ⟨fun i _ => by simp, fun hd i j _ _ => ?_⟩⟩
+  · unfold climateInit
+    rw [thresholdMat_eq]
+    exact geo_path d N hN _ cl hcl t
+  · rw [hsym hd i j]
+    by_cases h : i = j
+    · subst h; rfl
+    · rw [bne_comm]
+
+private theorem geoWeights_length (cl : List Rat) (N : Nat) (hcl : cl.length = N) (t : Nat) :
+    (weightsOf N (geoWeights cl t)).length = N := by
+  unfold geoWeights
+  by_cases h1 : (t == 1) = true
+  · simp [h1, weightsOf, hcl]
+  · by_cases h2 : (t == 2) = true
+    · simp [h1, h2, weightsOf, hcl]
+    · simp [h1, h2, weightsOf]
+
+private theorem ratAbs_sub_comm (a b : Rat) : ratAbs (a - b) = ratAbs (b - a) := by
+  unfold ratAbs
+  split_ifs <;> linarith
+
+/-- **`CoupledClimateNetwork`**: running `Network.__init__` once more on the adjacency and
+the weights of the `ClimateNetwork` just built changes nothing -/
+theorem coupled_path (d : Bool) (N : Nat) (hN : 2 ≤ N) (sim : Nat → Nat → Rat) (thr : Rat)
+    (cl : List Rat) (hcl : cl.length = N) (t : Nat) :
+    coupledInit d N sim thr cl t = climateInit d N sim thr cl t := by
+  unfold coupledInit
+  rw [(climate_path d N hN sim thr cl hcl t).1]
+  show init d (.sparse (ofGraph d N _ _ none).sparse) (some (weightsOf N (geoWeights cl t))) = _
+  rw [sparse_ofGraph, init_dense d N hN _ _ (geoWeights_length cl N hcl t)]
+
+/-- **`RecurrenceNetwork(x, threshold=ε, node_weights=w)`** of a scalar series (and
+`set_fixed_threshold(ε)`, then with unit weights): states `i ≠ j` are linked iff
+`|x_i − x_j| < ε`; always an undirected simple graph -/
+theorem recurrence_path (x : List Rat) (hN : 2 ≤ x.length) (eps : Rat) (w : Option (List Rat))
+    (hw : ∀ v, w = some v → v.length = x.length) :
+    recurrenceInit x eps w
+      = .ok (ofGraph false x.length
+          (fun i j => i != j && decide (ratAbs (x.getD i 0 - x.getD j 0) < eps))
+          (weightsOf x.length w) none)
+    ∧ Simple false x.length
+        fun i j => i != j && decide (ratAbs (x.getD i 0 - x.getD j 0) < eps) := by
+  have hm : recurrenceMat x eps
+      = ind fun i j => i != j && decide (ratAbs (x.getD i 0 - x.getD j 0) < eps) := by
+    funext i j
+    unfold recurrenceMat ind
+    by_cases h : i = j
+    · simp [h]
+    · by_cases h2 : ratAbs (x.getD i 0 - x.getD j 0) < eps <;> simp [h, h2]
+  refine ⟨?_, ⟨fun i _ => by simp, fun _ i j _ _ => ?_⟩⟩
+  · unfold recurrenceInit
+    rw [hm]
+    cases w with
+    | none => exact init_dense_none false _ hN _
+    | some v => exact init_dense false _ hN _ v (hw v rfl)
+  · have hab := ratAbs_sub_comm (x.getD i 0) (x.getD j 0)
+    rw [hab, bne_comm]
+
+/-- **`ResNetwork(resistances)`** without an explicit adjacency: `i` and `j` are linked iff
+`resistances[i, j] ≠ 0`; a simple graph when the resistance matrix is symmetric with zero
+diagonal -/
+theorem res_path (N : Nat) (hN : 2 ≤ N) (R : Nat → Nat → Rat) (cl : List Rat)
+    (hcl : cl.length = N) (t : Nat) :
+    resInit N R cl t
+      = .ok (ofGraph false N (fun i j => R i j != 0) (weightsOf N (geoWeights cl t)) none)
+    ∧ ((∀ i, R i i = 0) → (∀ i j, R i j = R j i) → Simple false N fun i j => R i j != 0) := by
+  have hm : resMat R = ind fun i j => R i j != 0 := by
+    funext i j
+    unfold resMat ind
+    rfl
+  refine ⟨?_, fun h0 hs => ⟨fun i _ => by simp [h0 i], fun _ i j _ _ => by rw [hs i j]⟩⟩
+  unfold resInit
+  rw [hm]
+  exact geo_path false N hN _ cl hcl t
+
+
 /-! non-vacuity, round 3 -/
 
 /-- two attributes at once on the path-plus-isolated-node network; an undirected copy in the
@@ -965,6 +1069,15 @@ example : ValidRun 4 true [.setAttr "a_b" (fun i _ => (i : Nat)), .ucopy,
   refine ⟨?_, trivial, ?_, trivial⟩
   · intro h; cases h
   · intro _ i j; simp [Nat.add_comm]
+/-- a similarity matrix with mixed signs, thresholded at 1/2: nodes 0-1 are linked (|-3/4| > 1/2),
+0-2 not (1/2 is not above 1/2) -/
+example : thresholdMat (fun i j => if i + j == 1 then -3 / 4 else if i + j == 2 then 1 / 2 else 1)
+      (1 / 2) 0 1 = 1
+    ∧ thresholdMat (fun i j => if i + j == 1 then -3 / 4 else if i + j == 2 then 1 / 2 else 1)
+      (1 / 2) 0 2 = 0 := by
+  constructor <;> norm_num [thresholdMat, ratAbs]
+example : recurrenceMat [0, 1, 3] (3 / 2) 0 1 = 1 ∧ recurrenceMat [0, 1, 3] (3 / 2) 1 2 = 0 := by
+  constructor <;> norm_num [recurrenceMat, ratAbs]
 /-- igraph's GML renaming satisfies the hypotheses of `gml_reload_named`: the weight
 attribute is renamed, `corr` is kept, `link_weights` is renamed away -/
 example : stripUnderscores "node_weight_nsi" ≠ "node_weight_nsi"
